@@ -673,7 +673,7 @@ impl RLN {
     /// ```
     #[cfg(not(feature = "stateless"))]
     pub fn get_proof<W: Write>(&self, index: usize, mut output_data: W) -> Result<()> {
-        let merkle_proof = self.tree.proof(index).expect("proof should exist");
+        let merkle_proof = self.tree.proof(index)?;
         let path_elements = merkle_proof.get_path_elements();
         let identity_path_index = merkle_proof.get_path_index();
 
